@@ -68,6 +68,14 @@ static std::string check_u64(uint64_t v, bool through_doc) {
     if (!d.IsUint64() || d.GetUint64() != v) return "SetUint64(" + std::string(want) + ") on a node that held another value: accessors disagree";
     std::string s = d.Dump();
     if (s != want) return "Serialize(uint64 " + std::string(want) + ") produced " + printable(s);
+    {  // the same node into a write buffer that holds the result of an earlier serialisation
+      WriteBuffer wb;
+      Document other;
+      other.SetInt64(-42);
+      other.Serialize(wb);
+      if (d.Serialize(wb) != kErrorNone || std::string(wb.ToString(), wb.Size()) != want)
+        return "Serialize(uint64 " + std::string(want) + ") into a used write buffer produced " + printable(std::string(wb.ToString(), wb.Size()));
+    }
     Document p;
     p.Parse(s.data(), s.size());
     if (p.HasParseError() || !p.IsUint64() || p.GetUint64() != v) return "parse-back of " + s + " lost the value or kind";
@@ -89,6 +97,14 @@ static std::string check_i64(int64_t v, bool through_doc) {
     if (!d.IsInt64() || d.GetInt64() != v) return "SetInt64(" + std::string(want) + ") on a node that held another value: accessors disagree";
     std::string s = d.Dump();
     if (s != want) return "Serialize(int64 " + std::string(want) + ") produced " + printable(s);
+    {
+      WriteBuffer wb;
+      Document other;
+      other.Parse("[1,2,3]");
+      other.Serialize(wb);
+      if (d.Serialize(wb) != kErrorNone || std::string(wb.ToString(), wb.Size()) != want)
+        return "Serialize(int64 " + std::string(want) + ") into a used write buffer produced " + printable(std::string(wb.ToString(), wb.Size()));
+    }
     Document p;
     p.Parse(s.data(), s.size());
     bool kind_ok = v < 0 ? (p.IsInt64() && !p.IsUint64() && p.GetInt64() == v) : (p.IsUint64() && p.GetUint64() == (uint64_t)v);
